@@ -257,8 +257,8 @@ Definition seg_position (sg : seg) (val : N) : option N :=
         Some ((val - s) - len_N (take_while (fun hole => hole <? val) (earr_iter h)))
       else None
   | SBitmap s e bm =>
-      if in_range s e val && bm_get bm (val - s) then
-        Some ((val - s) - count_false (take_N (val - s) bm))
+      if in_range s e val then                      (* `&&` short-circuits: the bitmap is only read in range *)
+        if bm_get bm (val - s) then Some ((val - s) - count_false (take_N (val - s) bm)) else None
       else None
   | SSorted a => earr_bsearch a val
   | SArray a => index_of val (earr_iter a)
